@@ -234,6 +234,11 @@ func (w *inotify) AddWith(path string, opts ...addOpt) error {
 
 	w.mu.Lock()
 	defer w.mu.Unlock()
+	// Check again now that we have the lock: Close() may have run since the
+	// check above, and we must not use the (closed, or even reused) descriptor.
+	if w.isClosed() {
+		return ErrClosed
+	}
 	path, recurse := recursivePath(path)
 	if recurse {
 		return filepath.WalkDir(path, func(root string, d fs.DirEntry, err error) error {
@@ -313,6 +318,9 @@ func (w *inotify) Remove(name string) error {
 
 	w.mu.Lock()
 	defer w.mu.Unlock()
+	if w.isClosed() { // Close() may have run since the check above.
+		return nil
+	}
 	return w.remove(filepath.Clean(name))
 }
 
